@@ -278,7 +278,14 @@ def render_tm(V, t, srcs, style, paths):
         sm_extra.append(render_tmap(V, g, V.graph, V.graph_map, style))
     for c, p in t.get('sjoins', []):
         sm_extra.append('%s [ %s %s ; %s %s ]' % (_p(V.join), _p(V.child), ttl_str(c), _p(V.parent), ttl_str(p)))
-    props.append(render_tmap(V, t['subj'], V.subject, V.subject_map, style, ' ; '.join(sm_extra)))
+    frag = render_tmap(V, t['subj'], V.subject, V.subject_map, style, ' ; '.join(sm_extra))
+    share = getattr(style, 'share_sm', None)
+    if share is not None and frag.startswith(_p(V.subject_map) + ' [ ') and frag.endswith(' ]'):
+        # one subject map RESOURCE referenced by every triples map whose subject map reads the same
+        body = frag[len(_p(V.subject_map)) + 3:-2]
+        node = share.setdefault(body, '<http://ex.org/sm/SM%d>' % len(share))
+        frag = '%s %s' % (_p(V.subject_map), node)
+    props.append(frag)
     if style.split_poms:
         split = []
         for p in poms:
@@ -309,7 +316,12 @@ def render_execs(case):
 def render_mapping(case, style, paths, tms=None):
     V = Vocab(style.vocab)
     srcs = {s['key']: s for s in case['sources']}
-    return ''.join(render_tm(V, t, srcs, style, paths) for t in (tms if tms is not None else case['doc'])) + render_execs(case)
+    text = ''.join(render_tm(V, t, srcs, style, paths) for t in (tms if tms is not None else case['doc'])) + render_execs(case)
+    share = getattr(style, 'share_sm', None)
+    if share:
+        text += ''.join('%s %s .\n' % (node, body) for body, node in share.items())
+        share.clear()
+    return text
 
 
 # ------------------------------------------------------------------ data rendering
@@ -488,8 +500,14 @@ def materialise_files(case, wd, style=None, name='m'):
         key = case['file_path_option']
         file_paths[key] = paths[key]
     mp = name + '.ttl'
-    with open(os.path.join(wd, mp), 'w', encoding='utf-8') as f:
-        f.write(render_mapping(case, style, {k: ('ignored-by-file_path.csv' if k in file_paths else v) for k, v in paths.items()}))
+    if style.vocab == 'yarrrml':
+        # the YARRRML spelling (cases of yarrrml_ok only; the renderer names the CSV files itself)
+        mp = name + '.yml'
+        with open(os.path.join(wd, mp), 'w', encoding='utf-8') as f:
+            f.write(render_yarrrml(case, style=style))
+    else:
+        with open(os.path.join(wd, mp), 'w', encoding='utf-8') as f:
+            f.write(render_mapping(case, style, {k: ('ignored-by-file_path.csv' if k in file_paths else v) for k, v in paths.items()}))
     if case['cfg'].get('udfs'):
         import shutil as _sh
         _sh.copy(os.path.join(os.path.dirname(os.path.abspath(__file__)), case['cfg'].get('udf_source', 'udfs.py')), os.path.join(wd, case['cfg']['udfs']))
@@ -760,8 +778,14 @@ def yarrrml_ok(case):
     """the abstract mapping lies in the fragment the YARRRML translator of /repo supports and the renderer below writes"""
     if any(s.get('kind', 'csv') != 'csv' for s in case['sources']) or case.get('file_path_option'):
         return False
+    quoted_ids = set(t['subj']['v'] for t in case['doc'] if t['subj']['k'] == 'quoted') | set(o['m']['v'] for t in case['doc'] for p in t.get('poms', []) for o in p['objs'] if o['m']['k'] == 'quoted')
     for t in case['doc']:
-        if t.get('nonasserted') or t.get('sjoins') or not _y_value_ok(t['subj']) or t['subj'].get('tt') not in ('', None, 'iri', 'bnode'):
+        if t.get('nonasserted') and t['id'] not in quoted_ids:
+            return False            # YARRRML marks a mapping non-asserted where it is quoted (quotedNonAsserted)
+        if t['subj']['k'] == 'quoted':
+            if len(t.get('sjoins', [])) > 1 or any(')' in a or ')' in b for a, b in t.get('sjoins', [])):
+                return False
+        elif t.get('sjoins') or not _y_value_ok(t['subj']) or t['subj'].get('tt') not in ('', None, 'iri', 'bnode'):
             return False
         if any(not (c.startswith('http')) for c in t.get('classes', [])):
             return False
@@ -777,7 +801,7 @@ def yarrrml_ok(case):
                     return False
             for o in p['objs']:
                 m = o['m']
-                if m['k'] == 'parent':
+                if m['k'] in ('parent', 'quoted'):
                     if len(o.get('joins', [])) > 1 or any(')' in a or ')' in b for a, b in o.get('joins', [])):
                         return False
                     continue
@@ -806,18 +830,29 @@ def _y_text(m):
 _Y_TYPE = {'iri': 'iri', 'lit': 'literal', 'bnode': 'blanknode'}
 
 
-def render_yarrrml(case, rng=None):
+def render_yarrrml(case, rng=None, style=None):
     """YARRRML text of the abstract mapping (fragment of yarrrml_ok); sources are the CSV files materialise_files writes"""
     import io
     from ruamel.yaml import YAML
     keys = {t['id']: 'tm%d' % i for i, t in enumerate(case['doc'])}
     files = {s['key']: 'm_%d.csv' % i for i, s in enumerate(case['sources'])}
+    by_id = {t['id']: t for t in case['doc']}
     mappings = {}
     for t in case['doc']:
         mv = {'sources': [['%s~csv' % files[t['src']]]]}
-        subj = {'value': _y_text(t['subj'])}
-        if t['subj'].get('tt'):
-            subj['type'] = _Y_TYPE[t['subj']['tt']]
+        def cond(j):
+            a, b = j
+            return {'function': 'equal', 'parameters': [['str1', '$(%s)' % a], ['str2', '$(%s)' % b]]}
+        def qkey(tid):
+            return 'quotedNonAsserted' if by_id[tid].get('nonasserted') else 'quoted'
+        if t['subj']['k'] == 'quoted':
+            subj = {qkey(t['subj']['v']): keys[t['subj']['v']]}
+            if t.get('sjoins'):
+                subj['condition'] = cond(t['sjoins'][0])
+        else:
+            subj = {'value': _y_text(t['subj'])}
+            if t['subj'].get('tt'):
+                subj['type'] = _Y_TYPE[t['subj']['tt']]
         mv['s'] = subj
         if t.get('sgraphs'):
             mv['graphs'] = [_y_text(g) for g in t['sgraphs']]
@@ -831,8 +866,11 @@ def render_yarrrml(case, rng=None):
                 if m['k'] == 'parent':
                     od = {'mapping': keys[m['v']]}
                     if o.get('joins'):
-                        a, b = o['joins'][0]
-                        od['condition'] = {'function': 'equal', 'parameters': [['str1', '$(%s)' % a], ['str2', '$(%s)' % b]]}
+                        od['condition'] = cond(o['joins'][0])
+                elif m['k'] == 'quoted':
+                    od = {qkey(m['v']): keys[m['v']]}
+                    if o.get('joins'):
+                        od['condition'] = cond(o['joins'][0])
                 else:
                     od = {'value': _y_text(m)}
                     if o.get('lang'):
